@@ -306,6 +306,74 @@ def u_session(ctx, u):
                 ctx.nontrivial(u['proto'], 'echo', total, cap, ech['refused'] > 0)
                 ctx.stat('echo_bytes', total)
                 ctx.stat('echo_sends_refused_while_buffered', ech['refused'])
+        # full-duplex phase: both endpoints leave a rendez-vous and write at the same moment (their record protection runs
+        # concurrently in the two threads), then each reads what the other wrote.  The amounts stay below what the socket
+        # buffers hold, so neither writer depends on the other side reading.
+        if okk_all:
+            rounds = 5
+            bar = threading.Barrier(2)
+            dup = {'s': {'got': [], 'err': None}, 'c': {'got': [], 'err': None}}
+            plan_ = [(rng.choice([1, 100, 16384, 16385, 40000, rng.randint(1, 60000)]), rng.choice([1, 100, 16384, 16385, 40000, rng.randint(1, 60000)]),
+                      rng.choice([4096, 20000, 70000])) for _ in range(rounds)]
+
+            def duplex_side(ep, me, k):
+                ep.thread_setup()
+                for rd, (ns, nc, cap) in enumerate(plan_):
+                    mine, theirs = (ns, nc) if me == 's' else (nc, ns)
+                    out = pattern(u['_i'] * 1000 + sch * 10 + 100 + 2 * rd + k, mine)
+                    try:
+                        bar.wait(60)
+                    except threading.BrokenBarrierError:
+                        dup[me]['err'] = ('barrier', rd)
+                        return
+                    ok_, _ = ep.send(out)
+                    if not ok_:
+                        dup[me]['err'] = ('send', rd)
+                        bar.abort()
+                        return
+                    got = bytearray()
+                    while len(got) < theirs:
+                        r, d, over = ep.recv(cap)
+                        if r != 1 or over:
+                            dup[me]['err'] = ('recv', rd, r, over)
+                            bar.abort()
+                            dup[me]['got'].append(bytes(got))
+                            return
+                        got.extend(d)
+                    dup[me]['got'].append(bytes(got))
+                ep.thread_finish()
+            ths = [threading.Thread(target=duplex_side, args=(s, 's', 0)), threading.Thread(target=duplex_side, args=(c, 'c', 1))]
+            ctx.begin(['duplex', u['proto'], plan_])
+            for th in ths:
+                th.start()
+            for th in ths:
+                th.join(90)
+            det = dict(plan=plan_, errors={k: v['err'] for k, v in dup.items()}, **cfg)
+            if any(th.is_alive() for th in ths):
+                for sk in res['socks']:
+                    try:
+                        sk.shutdown(2)
+                    except OSError:
+                        pass
+                for th in ths:
+                    th.join(10)
+                bar.abort()
+                ctx.stat('duplex_inconclusive_wall_clock')
+                okk_all = False
+            else:
+                bad = None
+                for rd, (ns, nc, cap) in enumerate(plan_):
+                    for me, k_other, n_other in (('s', 1, nc), ('c', 0, ns)):
+                        want = pattern(u['_i'] * 1000 + sch * 10 + 100 + 2 * rd + k_other, n_other)
+                        got = dup[me]['got'][rd] if rd < len(dup[me]['got']) else b''
+                        dd = locate(want, got)
+                        if dd is not None and bad is None:
+                            bad = dict(round=rd, reader=me, diff=dd)
+                if not ctx.check(bad is None and not any(v['err'] for v in dup.values()), 'stream:not-conserved:simultaneous-writers:' + u['proto'], first=bad, **det):
+                    okk_all = False
+                ctx.nontrivial(u['proto'], 'duplex', tuple(plan_))
+                ctx.stat('duplex_rounds', rounds)
+                ctx.stat('duplex_bytes', sum(a + b for a, b, _ in plan_))
         # orderly close: no data may surface after it
         if okk_all:
             closer, other = (c, s) if rng.random() < 0.5 else (s, c)
